@@ -179,3 +179,20 @@ def dominators(body, pos):
             return
     scan(0, len(body))
     return out
+
+
+def function_at(text, pos):
+    """(header text, offset of the opening brace, offset of the closing brace) of the C function definition enclosing pos;
+    Tempita placeholders in the header are tolerated.  A definition starts at column 0 and its header ends with `) {`."""
+    best = None
+    for m in re.finditer(r'^(?![ \t#/}])[^\n;]*(?:\n[^\n;{}]*)*?\)\s*\{[ \t]*$', text[:pos], re.M):
+        best = m
+    if best is None:
+        return None
+    b0 = best.end() - 1
+    while text[b0] != '{':
+        b0 -= 1
+    b1 = _match_brace(text, b0)
+    if not (b0 < pos <= b1):
+        return None
+    return best.group(0), b0, b1
